@@ -21,7 +21,7 @@ out = ["# Independently seeded property-breaking changes", "",
        "Written by fresh sub-agents that saw only the property text and a scratch worktree; confirmed by `tools/seedcheck.py`",
        "(demonstration passes on the unchanged tree and fails with the change; the touched packages' own tests still pass).",
        "`caught by` = first tier of the first check that printed VIOLATION with the change applied (`VERIF_REPO=<worktree> bin/check`).",
-       "Wave 1 = A/B, wave 2 = X/Y, wave 3 = P/Q, wave 4 = R/S, wave 5 = V/W. DESIGN.md §12.6 / §12.7 record which of these were first missed and what was strengthened; a change caught only by another property's check names that check.", "",
+       "Wave 1 = A/B, wave 2 = X/Y, wave 3 = P/Q, wave 4 = R/S, wave 5 = V/W, sixth round = Z (ten properties). DESIGN.md §12.6 / §12.7 record which of these were first missed and what was strengthened; a change caught only by another property's check names that check.", "",
        "| change | touches | author's headline | caught by | not caught by | violation keys | /repo HEAD |", "|---|---|---|---|---|---|---|"]
 for r in rows:
     out.append("| " + " | ".join(r) + " |")
